@@ -76,8 +76,22 @@ ASSUMPTIONS = [
     'the socket keeps what was delivered and not read from one request to the next (FakeSock.arrived); the silent '
     'periods of a script leave nothing behind; a non-blocking read sees only what has already arrived',
     'which state of the source the correspondence compares with (requeue / cmdOnly / drain of Loops.Cfg, inc of '
-    'i2cProbe) is decided by probing the real code with the witnesses of the counter-example theorems; the PROPERTY '
-    'is judged on the real code in every case',
+    'i2cProbe, refuseRouted of I2cCfg per transport) is decided by probing the real code with the witnesses of the '
+    'counter-example theorems; the PROPERTY is judged on the real code in every case',
+    'ipmb-dev / Aardvark do not bridge: a request or probe for a target whose routing has more than one hop is refused '
+    '(NotSupportedError before anything is written, fixes/C09-2.diff; routed_target_refused_i2c) - "an error", which this '
+    'property allows; whether such a request may instead go out un-bridged is property C09\'s (C09:<transport>:routing-'
+    'ignored).  Sessions on these transports contain routed targets (depth 1..4, requests and probes): a refused request '
+    'must leave no trace - the next request goes out with the next sequence number and finds its reply',
+    'NOT claimed for ipmb-dev / Aardvark (observations of the second audit, findings/c04/round2): (1) these transports '
+    'have no transaction lock - two application threads sharing one interface object can be given the same sequence '
+    'number and each other\'s replies; the library itself starts no thread on these transports (the keep-alive thread is '
+    'Rmcp\'s), the models are sequential and the "schedules" of the quantifier are explored for Rmcp only (threads stream, '
+    'C14); (2) `while retries < self.max_retries`: on these transports max_retries counts ATTEMPTS (Rmcp: retries after '
+    'the first attempt), so a budget of 0 sends nothing and every request ends in IpmiTimeoutError - always an error, never '
+    'wrong data; changing the loop test would change the default behaviour (4 attempts instead of 3).  The model mirrors '
+    'the source (I2cCfg.attempts = max_retries + Gen.…AttemptsExtra, AttemptsExtra = 0) and finds_match_after_noise_i2c is '
+    'stated for fewer failed attempts than `attempts`; the harness keeps the default budget (3)',
     'rmcp_ignore_rq_seq is a documented opt-out: with it the sequence number is not part of "matches the request"',
     'the one combination excluded from the progress clauses: a BRIDGED request whose own reply passes the filter of '
     'the outstanding Send Message (a Send Message to LUN 0 of the target sent through a bridge) - nothing in the '
@@ -260,7 +274,7 @@ def run_real(case):
         for st in case['steps']:
             pre_seq = rig.iface.next_sequence_number
             if 'probe' in st:
-                r = T.run_i2c_probe(rig, st['probe'], st['events'])
+                r = T.run_i2c_probe(rig, st['probe'], st['events'], st.get('routing'))
             else:
                 r = T.run_i2c(rig, st['req'], st['events'])
             r['pre_seq'], r['pre_q'] = pre_seq, []
@@ -276,7 +290,10 @@ PROBE_REQ = {'netfn': 6, 'lun': 0, 'cmd': 1, 'payload': ''}
 def _step_req(st):
     """the request a step puts on the wire (`is_ipmc_accessible` = Get Device ID to LUN 0 of the target)"""
     if 'probe' in st:
-        return dict(PROBE_REQ, rs_sa=st['probe'])
+        r = dict(PROBE_REQ, rs_sa=st['probe'])
+        if st.get('routing'):
+            r['routing'] = st['routing']
+        return r
     return st['req']
 
 
@@ -288,9 +305,21 @@ def _evs(events):
     return [e[0] if e[0] in 'TM' else e[0] + (e[1] or '-') for e in events]
 
 
-def bridged_of(req, seq):
-    """'-' or the sequence number of the outstanding Send Message (routing with more than one entry)"""
-    return str(seq) if len(req.get('routing') or []) > 1 else '-'
+def bridged_of(req, seq, tr='rmcp'):
+    """'-' or the sequence number of the outstanding Send Message (routing with more than one entry; ipmb-dev and
+    Aardvark never bridge: they refuse such a target - or, as shipped, ignored the routing)"""
+    return str(seq) if tr == 'rmcp' and len(req.get('routing') or []) > 1 else '-'
+
+
+def _rt(req):
+    return ','.join('%d:%d:%d' % (h[0], h[1], h[2] if h[2] is not None else 0) for h in req.get('routing') or []) or '-'
+
+
+def refused(tr, req, r):
+    """ipmb-dev / Aardvark refused a target that is reachable only through a bridge: NotSupportedError and NOTHING
+    written (fixes/C09-2.diff) - an error, as the property allows; whether a routed request is refused or put on the
+    wire un-bridged is judged by C09"""
+    return tr != 'rmcp' and len(req.get('routing') or []) > 1 and r['out'][0] == 'NotSupportedError' and not r['tx']
 
 
 def model_line(case, st, r, variant):
@@ -298,7 +327,7 @@ def model_line(case, st, r, variant):
     pl = req.get('payload') or '-'
     if case['transport'] == 'rmcp':
         c = case['cfg']
-        rt = ','.join('%d:%d:%d' % (h[0], h[1], h[2] if h[2] is not None else 0) for h in req.get('routing') or []) or '-'
+        rt = _rt(req)
         return 'rmcp %d %d %d %d %d %d %d %d %s %s %d %d %d %d %s %s %s' % (
             c['mr'], int(bool(c.get('igs'))), int(bool(c.get('igl'))), variant['requeue'], variant['cmdOnly'],
             variant['drain'], 0x81, r['pre_seq'], _hexq(r['pre_q']), ','.join(_evs(r['pre_sock'])) or '-',
@@ -312,10 +341,11 @@ def model_line(case, st, r, variant):
         else:
             evs.append('%s%d:%s' % (e[0], e[1], e[2] or '-'))
     kind = 'd' if case['transport'] == 'ipmbdev' else 'a'
+    rf = variant['refuse'][case['transport']]
     if 'probe' in st:
-        return 'probe %s %d %d %d %s' % (kind, variant['inc'], r['pre_seq'], st['probe'], ' '.join(evs))
-    return 'i2c %s %d %d %d %d %d %s %s' % (kind, r['pre_seq'], req['rs_sa'], req['netfn'], req['lun'], req['cmd'], pl,
-                                           ' '.join(evs))
+        return 'probe %s %d %d %d %d %s %s' % (kind, variant['inc'], rf, r['pre_seq'], st['probe'], _rt(req), ' '.join(evs))
+    return 'i2c %s %d %d %d %d %d %d %s %s %s' % (kind, rf, r['pre_seq'], req['rs_sa'], req['netfn'], req['lun'], req['cmd'],
+                                                 pl, _rt(req), ' '.join(evs))
 
 
 def real_line(case, r):
@@ -368,7 +398,7 @@ class Judge(object):
                 req = _step_req(st)
                 wire_seq = (r['pre_seq'] + 1) % 64
                 rid = _req_id(req, wire_seq)
-                br = bridged_of(req, wire_seq)
+                br = bridged_of(req, wire_seq, case['transport'])
                 if r['out'][0] == 'ok' and 'probe' not in st:
                     recv = [lean.hexs(x) for x in r['pre_q']] + [f or '-' for f in _frames_seen(case, st, r)]
                     lines.append('oracle %d %d %d %d %d %s' % (cs, rid[0], rid[1], rid[2], rid[3], ' '.join(recv)))
@@ -409,9 +439,14 @@ class Judge(object):
             ctx.count('script_len:%d' % min(len(st['events']), 9))
             if 'probe' in st:
                 ctx.count('request:is_ipmc_accessible')
+            elif tr != 'rmcp' and _step_req(st).get('routing'):
+                pass
             elif st['req']['cmd'] == 0x34:
                 ctx.count('request:cmd-34h:%s:%s' % ('App' if st['req']['netfn'] == 6 else 'other-netfn',
                                                       'bridged' if len(st['req'].get('routing') or []) > 1 else 'not-bridged'))
+            if tr != 'rmcp' and _step_req(st).get('routing'):
+                ctx.count('request:%s:routing-depth-%d:%s' % (tr, len(_step_req(st)['routing']),
+                                                             'refused' if refused(tr, _step_req(st), r) else 'sent'))
             if tr == 'rmcp' and r['pre_sock']:
                 ctx.count('socket-not-empty-at-start:%d' % min(len(r['pre_sock']), 4))
             for k in st.get('kinds', []):
@@ -476,10 +511,12 @@ def judge_step(case, si, st, r, oracle_ans, cls):
                         'request carries the same sequence number as the previous one (or re-sends differ)',
                         'sequence != %d' % r['pre_seq'], 'sequence %d' % ws))
         wire_seq_expected = ws
+    elif refused(tr, req, r):
+        return out          # an error before anything was written: nothing else to judge here
     else:
         out.append((SIG_SEQ % tr, 'no well-formed request was written', 'one IPMB request', repr(tx)[:80]))
     rid = _req_id(req, (r['pre_seq'] + 1) % 64)
-    br = bridged_of(req, rid[3])
+    br = bridged_of(req, rid[3], tr)
     # P1 — attribution
     if r['out'][0] == 'ok' and not probe:
         got = lean.hexs(r['out'][1])
@@ -600,7 +637,7 @@ def _case_key(case):
 
 def _mini(case, upto):
     c = dict(case)
-    c['steps'] = [dict((k, s[k]) for k in ('req', 'probe', 'events') if k in s) for s in case['steps'][:upto + 1]]
+    c['steps'] = [dict((k, s[k]) for k in ('req', 'probe', 'routing', 'events') if k in s) for s in case['steps'][:upto + 1]]
     return c
 
 
@@ -792,8 +829,16 @@ def gen_i2c_exhaustive(ctx, judge, tr, maxlen):
                 ctx.count('gen:%s-exh' % tr)
 
 
+def i2c_routing(rng, rs_sa, depth):
+    """a path of `depth` hops from the interface (slave address 20h) to `rs_sa`: one hop = the target sits on the
+    local bus (the hop names the interface's and the target's address); more = it is reachable only through bridges"""
+    via = [(0x20, 0x82, 7), (0x20, 0x8e, 2), (0x20, 0x90, 0)][:depth - 1]
+    return [list(h) for h in via] + [[0x20, rs_sa, None]]
+
+
 def gen_i2c_random(ctx, judge, rng, tr, n):
     alpha = [k for k in I2C_EXT if not (tr == 'aardvark' and k in ('Lmatch', 'empty'))]
+    refuse = judge.variant['refuse'][tr]
     for _ in range(n):
         seq0 = rng.choice([0, 62, 63, rng.randrange(64)])
         steps, pre = [], seq0
@@ -803,6 +848,8 @@ def gen_i2c_random(ctx, judge, rng, tr, n):
             probe = rng.random() < 0.25
             if probe:
                 req = dict(PROBE_REQ, rs_sa=req['rs_sa'])
+            if rng.random() < 0.2:
+                req['routing'] = i2c_routing(rng, req['rs_sa'], rng.choice((1, 2, 2, 3, 4)))
             kinds = [rng.choice(alpha) for _ in range(rng.randrange(0, 8))]
             if rng.random() < 0.4:
                 kinds = [rng.choice(['stale', 'stale32', 'cmd', 'lun', 'pay', 'I', 'E']) for _ in range(rng.randrange(0, 4))] + ['match']
@@ -810,10 +857,39 @@ def gen_i2c_random(ctx, judge, rng, tr, n):
             step = _i2c_step(kinds, dts, req, pre, _data(rng))
             if probe:
                 step = {'probe': req['rs_sa'], 'kinds': step['kinds'], 'events': step['events']}
+                if req.get('routing'):
+                    step['routing'] = req['routing']
             steps.append(step)
-            pre = (pre + 1) % 64
+            if not (refuse and len(req.get('routing') or []) > 1):
+                pre = (pre + 1) % 64         # a refused request does not use a sequence number up
         judge.add({'transport': tr, 'cfg': {}, 'seq0': seq0, 'steps': steps})
         ctx.count('gen:%s-random' % tr)
+
+
+def gen_i2c_routed(ctx, judge, tr):
+    """directed: a target behind 1..3 bridges among ordinary requests on one interface object - request / probe for
+    the routed target (a matching reply from whoever owns that address on the LOCAL bus is ready), then a request for
+    a target on the local bus whose reply arrives: it must be answered whatever happened before"""
+    refuse = judge.variant['refuse'][tr]
+    local = {'rs_sa': 0x82, 'netfn': 6, 'lun': 0, 'cmd': 1, 'payload': ''}
+    for seq0 in (0, 62, 63):
+        for depth in (1, 2, 3, 4):
+            for probe in (False, True):
+                for first in (True, False):
+                    far = {'rs_sa': 0x72, 'netfn': 6, 'lun': 0, 'cmd': 1, 'payload': '', 'routing': i2c_routing(None, 0x72, depth)}
+                    steps, pre = [], seq0
+                    if not first:
+                        steps.append(_i2c_step(['match'], (2,), local, pre, b'\x00\x82'))
+                        pre = (pre + 1) % 64
+                    st = _i2c_step(['match'], (2,), far, pre, b'\x00\x72')
+                    if probe:
+                        st = {'probe': 0x72, 'routing': far['routing'], 'kinds': st['kinds'], 'events': st['events']}
+                    steps.append(st)
+                    if not (refuse and depth > 1):
+                        pre = (pre + 1) % 64
+                    steps.append(_i2c_step(['stale', 'match'], (1, 2), local, pre, b'\x00\x83'))
+                    judge.add({'transport': tr, 'cfg': {}, 'seq0': seq0, 'steps': steps})
+                    ctx.count('gen:%s-routed' % tr)
 
 
 def gen_i2c_probes(ctx, judge, tr):
@@ -967,8 +1043,16 @@ def witness_probe(tr):
             'steps': [s1, {'probe': 0x84, 'kinds': p['kinds'], 'events': p['events']}]}
 
 
+def witness_routed(tr):
+    """the example of Props.C04 / Props.C09.i2c_routing_ignored_asShipped_counterexample: Get Device ID for the MMC at
+    72h behind the carrier IPMC 82h (bridge channel 7); whoever owns 72h on the local bus answers"""
+    req = dict(PROBE_REQ, rs_sa=0x72, routing=[[0x20, 0x82, 7], [0x20, 0x72, None]])
+    return {'transport': tr, 'cfg': {}, 'seq0': 0, 'steps': [_i2c_step(['match'], (2,), req, 0, b'\x00\x72')]}
+
+
 def probe_variant():
-    """-> {'requeue', 'cmdOnly', 'drain', 'inc'} (0/1) of the working tree, as Loops.Cfg / i2cProbe name them"""
+    """-> {'requeue', 'cmdOnly', 'drain', 'inc'} (0/1) and {'refuse': {transport: 0/1}} of the working tree, as
+    Loops.Cfg / i2cProbe / I2cCfg.refuseRouted name them"""
     v = {}
     res = run_real(witness_case())
     v['requeue'] = 1 if (res[0]['out'][0] == 'RetryError' and res[0]['queue']) else 0
@@ -976,6 +1060,10 @@ def probe_variant():
     v['drain'] = 1 if run_real(witness_leftover())[1]['out'][0] == 'ok' else 0
     res = run_real(witness_probe('ipmbdev'))
     v['inc'] = 1 if _wire_seq(res[1]) != _wire_seq(res[0]) else 0
+    v['refuse'] = {}
+    for tr in ('ipmbdev', 'aardvark'):
+        r = run_real(witness_routed(tr))[0]
+        v['refuse'][tr] = 1 if (r['out'][0] == 'NotSupportedError' and not r['tx']) else 0
     return v
 
 
@@ -985,13 +1073,26 @@ VARIANT_NAMES = {'requeue': ('unmatched frame dropped', 'unmatched frame put bac
                  'drain': ('no drain: unread datagrams stay in the socket (before fixes/C04-3)',
                            'stale datagrams discarded before a request is sent'),
                  'inc': ('is_ipmc_accessible reuses the previous sequence number (before fixes/C04-4)',
-                         'is_ipmc_accessible advances the sequence number')}
+                         'is_ipmc_accessible advances the sequence number'),
+                 'refuse': ('Target.routing ignored: a routed request goes un-bridged to the local bus (before fixes/C09-2)',
+                            'a target behind a bridge is refused (NotSupportedError, nothing written)')}
+
+
+def _variant_names(variant):
+    out = {}
+    for k, v in variant.items():
+        if isinstance(v, dict):
+            for tr, x in v.items():
+                out['%s:%s' % (k, tr)] = VARIANT_NAMES[k][x]
+        else:
+            out[k] = VARIANT_NAMES[k][v]
+    return out
 
 
 # =============================================================== entry points
 def _corpus():
     cases = [witness_case(), witness_cmd34(), witness_late_ack(), witness_leftover(), witness_probe('ipmbdev'),
-             witness_probe('aardvark')]
+             witness_probe('aardvark'), witness_routed('ipmbdev'), witness_routed('aardvark')]
     # Appendix-B style directed cases: filter says no but data returned; acknowledgements counted
     req = {'rs_sa': 0x20, 'netfn': 6, 'lun': 0, 'cmd': 1, 'payload': ''}
     breq = dict(req, rs_sa=0x82, routing=[[0x81, 0x20, 0], [0x20, 0x82, None]])
@@ -1007,7 +1108,7 @@ def _corpus():
 def run(ctx):
     drv = ctx.driver('drv_c04')
     variant = probe_variant()
-    ctx.extra['source_variant'] = dict((k, VARIANT_NAMES[k][v]) for k, v in variant.items())
+    ctx.extra['source_variant'] = _variant_names(variant)
     judge = Judge(ctx, drv, variant)
     if _gen:
         c = dict(p.split('=') for p in drv.ask('consts').split())
@@ -1023,6 +1124,7 @@ def run(ctx):
     gen_rmcp_bridging(ctx, judge, ctx.rng('c04-bridging'))
     for tr in ('ipmbdev', 'aardvark'):
         gen_i2c_probes(ctx, judge, tr)
+        gen_i2c_routed(ctx, judge, tr)
     gen_rmcp_threads(ctx, 6 if quick else 40)
     gen_field_sweep(ctx, judge)
     gen_rmcp_exhaustive(ctx, judge, 4 if quick else 5, (0, 1, 2, 3), BASE9)
@@ -1074,6 +1176,7 @@ def search(ctx):
         gen_rmcp_random(ctx, judge, rng, 3000)
         for tr in ('ipmbdev', 'aardvark'):
             gen_i2c_probes(ctx, judge, tr)
+            gen_i2c_routed(ctx, judge, tr)
             gen_i2c_random(ctx, judge, rng, tr, 1500)
         judge.flush()
     finally:
@@ -1110,7 +1213,8 @@ def replay(ctx, v):
         if r['out'][0] == 'ok' and 'probe' not in st:
             recv = [lean.hexs(x) for x in r['pre_q']] + [f or '-' for f in _frames_seen(case, st, r)]
             oracle = drv.ask('oracle %d %d %d %d %d %s' % (cs, rid[0], rid[1], rid[2], rid[3], ' '.join(recv)))
-        print(' request %d %s%s' % (si, 'is_ipmc_accessible ' if 'probe' in st else '', req))
+        print(' request %d %s%s%s' % (si, 'is_ipmc_accessible ' if 'probe' in st else '', req,
+                                      '  -> refused, nothing written' if refused(case['transport'], req, r) else ''))
         if case['transport'] == 'rmcp':
             print('   in the socket at the start: %s' % (r['pre_sock'] or 'nothing'))
         print('   arrives   %s' % st['events'])
